@@ -101,3 +101,66 @@ def standard_replay(payload, compare_class=False, oracle=None):
     d = r[3] or (oracle(r[0], r[1], r[2]) if oracle else None)
     print("disagreement:", d)
     return 1 if d else 0
+
+
+# ---------------------------------------------------------------- small-scope exhaustive enumeration
+# Every document of at most N nodes over the property's OWN alphabet (directive keys, the scalar kinds that matter,
+# the shortest strings of each recogniser), evaluated like any other case.  Additional correspondence - never the proof:
+# the theorems are about all sizes, this stage is about all SHAPES up to a size, which is where boundary, kind and
+# ordering mistakes live.
+def small_scope(pid):
+    from histcheck import chain_case
+
+    def gen_(rng, tier):
+        deep = tier != "quick"
+        env = dict(gen.ENV, V="val")
+        docs, two = [], []
+        if pid == "C11":
+            docs = gen.enum_trees(6 if deep else 5, [1, True, False], ["a", "$output"])
+        elif pid == "C12":
+            docs = gen.enum_trees(5 if deep else 4, [0, 1, 2, "$repeat", 1.5, "2", "$\"{$repeat}\""], ["a", "$repeat"])
+            counts = [0, 1, 2, 1.5, "2"] + ([3, -1, True] if deep else [])
+            names = ["i", "j", "k"]
+            from itertools import product
+            for n in (1, 2, 3):
+                for cs in product(counts, repeat=n):
+                    m = dict(zip(names, cs))
+                    body = "$\"" + "-".join("{$repeat.%s}" % x for x in names[:n]) + "\""
+                    docs.append({"$repeat": m, "v": body})
+                    docs.append([{"$repeat": m}, body]) if n < 3 else None
+        elif pid == "C10":
+            docs = gen.enum_trees(4, ["a", "b", "a.b", 1], ["a", "b", "$merge", "$replace"])
+            if deep:
+                docs += gen.enum_trees(3, ["a", "b", "a.b", 1, "$merge:a", "$replace:b", ["a"], None], ["a", "b", "$merge", "$replace", "$match", "$path"])
+        elif pid == "C07":
+            atoms = ["$required", "$delete", "$match", "x", 1, None]
+            keys = ["a", "$required", "$match", "$delete", "$value"]
+            docs = gen.enum_trees(3, atoms, keys)
+            two = [({"a": "$required", "l": ["$required"]}, d) for d in gen.enum_trees(3, ["$required", "x", None], ["a", "l"]) if isinstance(d, dict)]
+        elif pid == "C13":
+            segs = ["x", "}", "{a}", "{m.n}", "{nosuch}", "{$env:V}", "{$env:UNSET}", "", "{", "é"]
+            from itertools import product
+            base = {"a": 1, "m": {"n": "s"}}
+            for n in (0, 1, 2, 3):
+                for t in product(segs, repeat=n):
+                    tmpl = "$\"" + "".join(t) + "\""
+                    docs.append(dict(base, t=tmpl))
+                    if n <= 2:
+                        docs.append(dict(base, **{tmpl: 1}))
+            for s in ["$\"", "$env:", "$env:V", "$env:UNSET", "$\"{a}", "$\"\"", "$\"{}\"", "$\"{a}{a}\"", "$\"{t}\""]:
+                docs.append(dict(base, t=s))
+                docs.append(dict(base, **{s: 1}))
+        elif pid == "C14":
+            from props import c14
+            for v in c14.VALUES:
+                for sp in c14.SPECS:
+                    for node in ({"$encode": sp, "$value": v}, dict(v, **{"$encode": sp}) if isinstance(v, dict) else None,
+                                 list(v) + [{"$encode": sp}] if isinstance(v, list) else None):
+                        if node is not None:
+                            docs.append({"out": node, "other": 1})
+        cases = [chain_case([d], env=env, tail=("outdocs",)) for d in docs if isinstance(d, (dict, list))]
+        cases += [chain_case([p, c], env=env, tail=("outdocs",)) for p, c in two]
+        for c in cases:
+            c["small_scope"] = True
+        return cases
+    return gen_
